@@ -2216,6 +2216,7 @@ pub fn with_flavours(mut fams: Vec<Family>, which: &[&str], tier: &str) -> Vec<F
         g.invariant_outcome = false;
         g.hang_is_violation = f.hang_is_violation;
         g.base_secs = f.base_secs;
+        g.weight = 0.35;
         extra.push(g);
     }
     fams.extend(extra);
